@@ -11,7 +11,7 @@ CONFIG = {
              'target of this call, an output recorded by the *model* for the previous committed build, '
              'or the private temp dir; rmtree only the temp dir; (2) snapshots: every file outside that '
              'set keeps bytes, mtime and inode, every directory not recorded as created stays; '
-             'evaluations = API calls judged; distinct_nontrivial = distinct (program shape, step '
+             'the audit hook itself is cross-checked against strace -f on a side workload (every mutating system call inside an API call must have an audit event: counters strace_*); evaluations = API calls judged; distinct_nontrivial = distinct (program shape, step '
              'kinds) histories with >=1 hit and >=1 miss'),
     'gates': ['swap_cases', 'swap_cases_rolled_back', 'builds_committed', 'builds_rolled_back', 'cleans', 'ev:os.rmdir|post-root',
               'ev:os.rename|root', 'ev:os.remove|post-root', 'ev:os.remove|clean', 'ev:os.rmdir|clean'],
@@ -28,7 +28,31 @@ def select(d):
     return d['kind'] in KINDS
 
 
+def strace_crosscheck(sh):
+    """trusted base: every mutating system call made during API calls (strace -f) has an audit event"""
+    import shutil
+    if shutil.which('strace') is None:
+        sh.notes.append('strace not available: audit-hook completeness cross-check skipped')
+        return
+    from ..strace_xcheck import run
+    try:
+        r = run(seed=sh.seed, nhist=15 if sh.tier == 'quick' else 200)
+    except Exception as e:  # noqa
+        sh.notes.append('strace cross-check could not run: %r' % (e,))
+        return
+    if r.get('status') == 'ok':
+        sh.count('strace_syscalls_matched', r['matched'])
+        sh.count('strace_windows', r['api_call_windows'])
+        sh.samples.append({'strace_cross_check': r})
+    elif r.get('status') == 'hole':
+        sh.inconclusive.append('audit hook misses system calls the library makes: %r' % (r['examples'],))
+    else:
+        sh.notes.append('strace cross-check inconclusive: %s' % r.get('reason'))
+
+
 def run_shard(sh):
+    if sh.idx == sh.n - 1:
+        strace_crosscheck(sh)
     from .swapcases import run_swap_cases
     run_swap_cases(sh, select, 'C03', nested_cache=sh.idx % 2 == 1)
     run_histories(sh, select=select, steps_range=(4, 8) if sh.tier == 'quick' else (6, 14),
